@@ -62,7 +62,15 @@ func (c *ClientCodec) Decode(response []byte, context *core.ClientContext) (resu
 			}
 			result = []interface{}{t.Indirect(p)}
 		default:
-			res := resp.Result.([]interface{})
+			// several results travel as an array; anything else is a single result, and
+			// results beyond those the caller expects are ignored.
+			res, ok := resp.Result.([]interface{})
+			if !ok {
+				res = []interface{}{resp.Result}
+			}
+			if len(res) > n {
+				res = res[:n]
+			}
 			result = make([]interface{}, 0, len(res))
 			for i, r := range res {
 				data, _ := c.Codec.Marshal(r)
